@@ -1,29 +1,639 @@
 import PhyVerif.Model.C01
 import PhyVerif.Spec.C01
+import PhyVerif.Lemmas.Np
+import PhyVerif.Lemmas.C07
 /-! Helper lemmas and full proofs for C01. Statements: `Props/C01.lean`. -/
 namespace PhyVerif.C01.Lemmas
 open PhyVerif PhyVerif.C01
 
-theorem getRows_eq_concat {α : Type} (parts : List (List α)) (hp : parts ≠ [])
-    (hne : ∀ p ∈ parts, p ≠ []) (it : Item) (hd : InDom parts.flatten.length it) :
-    getRows parts it = npRows parts.flatten it := by
-  sorry
+/-! ### `bounds` -/
 
-theorem npRows_some {α : Type} (A : List α) (it : Item) (hd : InDom A.length it) :
-    ∃ rows, npRows A it = some rows ∧ rows ≠ [] := by
-  sorry
+theorem boundsFrom_length {α : Type} (parts : List (List α)) :
+    ∀ off, (boundsFrom off parts).length = parts.length + 1 := by
+  induction parts with
+  | nil => intro off; rfl
+  | cons p ps ih => intro off; simp [boundsFrom, ih]
 
-theorem getItem_eq_concat {β : Type} (parts : List (List (List β))) (hp : parts ≠ [])
-    (hne : ∀ p ∈ parts, p ≠ []) (it : Item) (c : ColSel) (hd : InDom parts.flatten.length it) :
-    getItem parts it c = (npRows parts.flatten it).map fun rows => rows.map (selCols c) := by
-  sorry
+theorem boundsFrom_getElem? {α : Type} (parts : List (List α)) :
+    ∀ off j, j ≤ parts.length →
+      (boundsFrom off parts)[j]? = some (off + (parts.take j).flatten.length) := by
+  induction parts with
+  | nil =>
+    intro off j hj
+    have : j = 0 := by simpa using hj
+    subst this; simp [boundsFrom]
+  | cons p ps ih =>
+    intro off j hj
+    cases j with
+    | zero => simp [boundsFrom]
+    | succ j =>
+      have hj' : j ≤ ps.length := by simpa using hj
+      simp only [boundsFrom, List.getElem?_cons_succ, ih _ j hj', List.take_succ_cons,
+        List.flatten_cons, List.length_append]
+      congr 1; omega
+
+theorem le_of_mem_boundsFrom {α : Type} (parts : List (List α)) :
+    ∀ off y, y ∈ boundsFrom off parts → off ≤ y := by
+  induction parts with
+  | nil => intro off y hy; simp [boundsFrom] at hy; omega
+  | cons p ps ih =>
+    intro off y hy
+    simp only [boundsFrom, List.mem_cons] at hy
+    rcases hy with rfl | hy
+    · exact Nat.le_refl _
+    · have := ih _ _ hy; omega
+
+theorem boundsFrom_sorted {α : Type} (parts : List (List α)) :
+    ∀ off, (boundsFrom off parts).Pairwise (· ≤ ·) := by
+  induction parts with
+  | nil => intro off; simp [boundsFrom]
+  | cons p ps ih =>
+    intro off
+    simp only [boundsFrom]
+    refine List.pairwise_cons.2 ⟨fun y hy => ?_, ih _⟩
+    have := le_of_mem_boundsFrom ps _ y hy; omega
+
+theorem getLast?_boundsFrom {α : Type} (parts : List (List α)) :
+    ∀ off, (boundsFrom off parts).getLast? = some (off + parts.flatten.length) := by
+  induction parts with
+  | nil => intro off; simp [boundsFrom]
+  | cons p ps ih =>
+    intro off
+    simp only [boundsFrom, List.getLast?_cons, ih, List.flatten_cons, List.length_append,
+      Option.getD_some]
+    congr 1; omega
 
 theorem nSamples_eq {α : Type} (parts : List (List α)) :
     (bounds parts).getLast? = some parts.flatten.length := by
-  sorry
+  simpa [bounds] using getLast?_boundsFrom parts 0
 
 theorem memmapRows_exact (off isz nch rows : Nat) (h1 : 0 < isz) (h2 : 0 < nch) :
     memmapRows (off + rows * nch * isz) off isz nch = rows := by
-  sorry
+  unfold memmapRows
+  rw [Nat.add_sub_cancel_left, Nat.mul_assoc, Nat.mul_comm nch isz]
+  exact Nat.mul_div_cancel _ (Nat.mul_pos h1 h2)
+
+
+/-- cumulated length of the first `j` parts = start offset of part `j` -/
+def startOf {α : Type} (parts : List (List α)) (j : Nat) : Nat := (parts.take j).flatten.length
+
+theorem bounds_getElem? {α : Type} (parts : List (List α)) (j : Nat) (hj : j ≤ parts.length) :
+    (bounds parts)[j]? = some (startOf parts j) := by
+  simpa [bounds, startOf] using boundsFrom_getElem? parts 0 j hj
+
+theorem bounds_length {α : Type} (parts : List (List α)) :
+    (bounds parts).length = parts.length + 1 := boundsFrom_length parts 0
+
+theorem bounds_getElem {α : Type} (parts : List (List α)) (j : Nat) (hj : j < (bounds parts).length) :
+    (bounds parts)[j] = startOf parts j := by
+  have h := bounds_getElem? parts j (by rw [bounds_length] at hj; omega)
+  rw [List.getElem?_eq_getElem hj] at h
+  exact Option.some.inj h
+
+theorem startOf_zero {α : Type} (parts : List (List α)) : startOf parts 0 = 0 := by
+  simp [startOf]
+
+theorem startOf_length {α : Type} (parts : List (List α)) :
+    startOf parts parts.length = parts.flatten.length := by
+  simp [startOf]
+
+theorem startOf_succ {α : Type} (parts : List (List α)) (j : Nat) (hj : j < parts.length) :
+    startOf parts (j + 1) = startOf parts j + parts[j].length := by
+  unfold startOf
+  rw [List.take_succ_eq_append_getElem hj, List.flatten_append, List.length_append]
+  simp
+
+/-! ### `searchsorted(·, 'right')` on a sorted list -/
+
+theorem le_iff_lt_countP (b : List Nat) (hb : b.Pairwise (· ≤ ·)) (x : Nat) :
+    ∀ j (h : j < b.length), (b[j] ≤ x ↔ j < b.countP (· ≤ x)) := by
+  induction b with
+  | nil => intro j h; simp at h
+  | cons a t ih =>
+    intro j h
+    rw [List.pairwise_cons] at hb
+    by_cases hax : a ≤ x
+    · cases j with
+      | zero => simp [hax]
+      | succ j =>
+        have hj : j < t.length := by simpa using h
+        have := ih hb.2 j hj
+        simp only [List.getElem_cons_succ, List.countP_cons, hax, decide_true, if_true]
+        omega
+    · have h0 : t.countP (· ≤ x) = 0 := by
+        rw [List.countP_eq_zero]
+        intro y hy
+        have := hb.1 y hy
+        simp only [decide_eq_true_eq]; omega
+      cases j with
+      | zero => simp [hax, h0]
+      | succ j =>
+        have hj : j < t.length := by simpa using h
+        have : a ≤ t[j] := hb.1 _ (List.getElem_mem _)
+        simp only [List.getElem_cons_succ, List.countP_cons, hax, decide_false, h0]
+        simp; omega
+
+theorem ssRight_mono (b : List Nat) {x y : Nat} (h : x ≤ y) : ssRight b x ≤ ssRight b y := by
+  unfold ssRight
+  apply List.countP_mono_left
+  intro z _ hz
+  simp only [decide_eq_true_eq] at hz ⊢; omega
+
+/-- the chunk found by `_find_chunks` is the part containing the sample -/
+theorem chunk_spec {α : Type} (parts : List (List α)) (x : Nat) (hx : x < parts.flatten.length) :
+    ssRight (bounds parts) x - 1 < parts.length ∧
+    startOf parts (ssRight (bounds parts) x - 1) ≤ x ∧
+    x < startOf parts (ssRight (bounds parts) x - 1 + 1) := by
+  have hlen := bounds_length parts
+  have hiff := le_iff_lt_countP (bounds parts) (boundsFrom_sorted parts 0) x
+  have h0 := hiff 0 (by omega)
+  have hl := hiff parts.length (by omega)
+  rw [bounds_getElem, startOf_zero] at h0
+  rw [bounds_getElem, startOf_length] at hl
+  have hc := hiff (ssRight (bounds parts) x - 1)
+  have hc1 := hiff (ssRight (bounds parts) x - 1 + 1)
+  unfold ssRight at *
+  have hA : 0 < (bounds parts).countP (· ≤ x) := h0.1 (Nat.zero_le _)
+  have hB : (bounds parts).countP (· ≤ x) ≤ parts.length := by
+    apply Nat.le_of_not_lt; intro h; have := hl.2 h; omega
+  have hc := hc (by omega)
+  have hc1 := hc1 (by omega)
+  rw [bounds_getElem] at hc hc1
+  refine ⟨by omega, hc.2 (by omega), ?_⟩
+  apply Nat.lt_of_not_le; intro h; have := hc1.1 h; omega
+
+/-- conversely a sample inside part `c` is assigned chunk `c` -/
+theorem chunk_unique {α : Type} (parts : List (List α)) (x c : Nat) (hc : c < parts.length)
+    (h1 : startOf parts c ≤ x) (h2 : x < startOf parts (c + 1)) :
+    ssRight (bounds parts) x - 1 = c := by
+  have hlen := bounds_length parts
+  have hiff := le_iff_lt_countP (bounds parts) (boundsFrom_sorted parts 0) x
+  have ha := hiff c (by omega)
+  have hb := hiff (c + 1) (by omega)
+  rw [bounds_getElem] at ha hb
+  unfold ssRight
+  have := ha.1 h1
+  have : ¬ c + 1 < (bounds parts).countP (· ≤ x) := fun h => by have := hb.2 h; omega
+  omega
+
+/-- row `x` of the concatenation is row `x - i0` of the part that contains it -/
+theorem part_getElem? {α : Type} (parts : List (List α)) :
+    ∀ (c x : Nat) (hc : c < parts.length), startOf parts c ≤ x → x < startOf parts (c + 1) →
+      parts[c][x - startOf parts c]? = parts.flatten[x]? := by
+  induction parts with
+  | nil => intro c x hc; simp at hc
+  | cons p ps ih =>
+    intro c x hc h1 h2
+    cases c with
+    | zero =>
+      simp only [startOf, List.take_zero, List.flatten_nil, List.length_nil, Nat.sub_zero,
+        List.getElem_cons_zero, List.flatten_cons] at h2 ⊢
+      simp at h2
+      rw [List.getElem?_append_left h2]
+    | succ c =>
+      have hc' : c < ps.length := by simpa using hc
+      simp only [startOf, List.take_succ_cons, List.flatten_cons, List.length_append] at h1 h2 ⊢
+      have := ih c (x - p.length) hc' (by simp only [startOf]; omega) (by simp only [startOf]; omega)
+      simp only [startOf] at this
+      rw [List.getElem_cons_succ, List.getElem?_append_right (by omega), ← this]
+      congr 1; omega
+
+
+/-! ### int branch -/
+
+theorem readInt_eq {α : Type} (parts : List (List α)) (x : Nat) (hx : x < parts.flatten.length) :
+    readInt parts x = (parts.flatten[x]?).map fun r => [r] := by
+  obtain ⟨hc, h1, h2⟩ := chunk_spec parts x hx
+  unfold readInt
+  simp only []
+  rw [if_neg (by rw [bounds_length]; omega), bounds_getElem? parts _ (by omega),
+    List.getElem?_eq_getElem hc]
+  simp only []
+  rw [part_getElem? parts _ x hc h1 h2]
+
+/-! ### slice branch -/
+
+theorem slicePart_eq_nil_of_le {α : Type} (s e i0 : Nat) (p : List α) (h : i0 + p.length ≤ s) :
+    slicePart s e i0 p = [] := by
+  unfold slicePart
+  rw [List.drop_eq_nil_of_le (by omega), List.take_nil]
+
+theorem slicePart_eq_nil_of_ge {α : Type} (s e i0 : Nat) (p : List α) (h : e ≤ i0) :
+    slicePart s e i0 p = [] := by
+  unfold slicePart
+  have : min p.length (e - i0) - (s - i0) = 0 := by omega
+  rw [this]; rfl
+
+/-- reading every part and stacking gives the slice of the concatenation -/
+theorem walk_all {α : Type} (s e : Nat) (parts : List (List α)) :
+    ∀ off, (((boundsFrom off parts).zip parts).map fun ip => slicePart s e ip.1 ip.2).flatten
+      = (parts.flatten.drop (s - off)).take ((e - off) - (s - off)) := by
+  induction parts with
+  | nil => intro off; simp [boundsFrom]
+  | cons p ps ih =>
+    intro off
+    simp only [boundsFrom, List.zip_cons_cons, List.map_cons, List.flatten_cons, ih,
+      List.drop_append, List.take_append, List.length_drop]
+    congr 1
+    · unfold slicePart
+      rw [List.take_eq_take_iff, List.length_drop]; omega
+    · congr 1
+      · omega
+      · congr 1; omega
+
+theorem flatten_map_eq_nil {β γ : Type} (f : β → List γ) (L : List β) (h : ∀ y ∈ L, f y = []) :
+    (L.map f).flatten = [] := by
+  rw [List.flatten_eq_nil_iff]
+  intro l hl
+  obtain ⟨y, hy, rfl⟩ := List.mem_map.1 hl
+  exact h y hy
+
+theorem flatten_map_window {β γ : Type} (f : β → List γ) (L : List β) (a k : Nat)
+    (h1 : ∀ y ∈ L.take a, f y = []) (h2 : ∀ y ∈ (L.drop a).drop k, f y = []) :
+    (((L.drop a).take k).map f).flatten = (L.map f).flatten := by
+  conv => rhs; rw [← List.take_append_drop a L, ← List.take_append_drop k (L.drop a)]
+  simp only [List.map_append, List.flatten_append, flatten_map_eq_nil f _ h1,
+    flatten_map_eq_nil f _ h2, List.nil_append, List.append_nil]
+
+theorem readSlice_eq {α : Type} (parts : List (List α)) (s e : Nat) (he : 1 ≤ e) :
+    readSlice parts s e = (parts.flatten.drop s).take (e - s) := by
+  have hw := walk_all s e parts 0
+  simp only [Nat.sub_zero] at hw
+  rw [← hw]
+  unfold readSlice
+  simp only []
+  have hlen := bounds_length parts
+  have hzl : ((bounds parts).zip parts).length = parts.length := by
+    rw [List.length_zip, hlen]; omega
+  have hsorted := boundsFrom_sorted parts 0
+  apply flatten_map_window
+  · intro y hy
+    obtain ⟨j, hj, rfl⟩ := List.mem_take_iff_getElem.1 hy
+    have hj' : j < parts.length := by omega
+    rw [List.getElem_zip]
+    simp only []
+    apply slicePart_eq_nil_of_le
+    have := (le_iff_lt_countP (bounds parts) hsorted s (j + 1) (by omega)).2
+      (by unfold ssRight at hj; omega)
+    rw [bounds_getElem, startOf_succ _ _ hj'] at this
+    rw [bounds_getElem]; exact this
+  · intro y hy
+    rw [List.drop_drop] at hy
+    obtain ⟨j, hj, rfl⟩ := List.mem_drop_iff_getElem.1 hy
+    rw [List.getElem_zip]
+    simp only []
+    apply slicePart_eq_nil_of_ge
+    have h0 := (le_iff_lt_countP (bounds parts) hsorted (e - 1) 0 (by omega)).1
+      (by rw [bounds_getElem, startOf_zero]; omega)
+    have hh := (le_iff_lt_countP (bounds parts) hsorted (e - 1)
+      (ssRight (bounds parts) s - 1 + (ssRight (bounds parts) (e - 1) - 1 + 1 -
+        (ssRight (bounds parts) s - 1)) + j) (by omega))
+    have hmono := ssRight_mono (bounds parts) (show s ≤ s from Nat.le_refl _)
+    unfold ssRight at *
+    omega
+
+
+/-! ### slice normalisation -/
+
+theorem take_range' {α : Type} (A : List α) : ∀ (k s : Nat),
+    Np.take A (List.range' s k) = (A.drop s).take k := by
+  intro k
+  induction k with
+  | zero => intro s; simp [Np.take]
+  | succ k ih =>
+    intro s
+    have ih' := ih (s + 1)
+    unfold Np.take at ih' ⊢
+    rw [List.range'_succ, List.filterMap_cons]
+    by_cases hs : s < A.length
+    · rw [List.getElem?_eq_getElem hs]
+      simp only []
+      rw [ih', List.drop_eq_getElem_cons hs, List.take_succ_cons]
+    · rw [List.getElem?_eq_none (by omega)]
+      simp only []
+      rw [ih', List.drop_eq_nil_of_le (by omega), List.drop_eq_nil_of_le (by omega)]
+      simp
+
+theorem neg_emod (v n : Int) (h1 : -n ≤ v) (h2 : v < 0) : v % n = v + n := by
+  rw [← Int.add_emod_right]
+  exact Int.emod_eq_of_lt (by omega) (by omega)
+
+/-- NumPy's start/stop of a unit-step slice (as in `slice.indices`) -/
+def npStart (n : Int) : Option Int → Int
+  | none => 0
+  | some s => if s < 0 then max (s + n) 0 else min s n
+def npStop (n : Int) : Option Int → Int
+  | none => n
+  | some e => if e < 0 then max (e + n) 0 else min e n
+
+theorem sliceIdx_one (n : Nat) (start stop : Option Int) :
+    Np.sliceIdx n start stop 1 =
+      List.range' (npStart n start).toNat (npStop n stop - npStart n start).toNat := by
+  have hs0 : 0 ≤ npStart n start := by
+    unfold npStart; split
+    · omega
+    · split <;> omega
+  unfold Np.sliceIdx
+  simp only [show (1 : Int) > 0 by decide, if_true]
+  change (List.range (if npStart n start < npStop n stop then
+      ((npStop n stop - npStart n start + 1 - 1) / 1).toNat else 0)).map
+      (fun (k : Nat) => (npStart n start + Int.ofNat k * 1).toNat) = _
+  rw [List.range'_eq_map_range]
+  have hcnt : (if npStart n start < npStop n stop then
+      ((npStop n stop - npStart n start + 1 - 1) / 1).toNat else 0)
+      = (npStop n stop - npStart n start).toNat := by
+    split
+    · congr 1; rw [Int.ediv_one]; omega
+    · omega
+  rw [hcnt]
+  apply List.map_congr_left
+  intro k _
+  simp only [Int.ofNat_eq_natCast, Int.mul_one]
+  omega
+
+theorem slice_norm (n : Nat) (start stop : Option Int)
+    (hs : ∀ s, start = some s → -(n : Int) ≤ s ∧ s ≤ n)
+    (he : ∀ e, stop = some e → -(n : Int) ≤ e ∧ e ≤ n)
+    (hne : Np.sliceIdx n start stop 1 ≠ []) :
+    ∃ s e : Nat, s < e ∧ e ≤ n ∧ normBound (pyOr start 0) n = s ∧ normBound (pyOr stop n) n = e ∧
+      Np.sliceIdx n start stop 1 = List.range' s (e - s) := by
+  rw [sliceIdx_one] at hne ⊢
+  have hlt : npStart n start < npStop n stop := by
+    apply Int.lt_of_not_ge; intro h
+    apply hne
+    rw [show (npStop n stop - npStart n start).toNat = 0 by omega]; rfl
+  have hS : normBound (pyOr start 0) n = npStart n start ∧ 0 ≤ npStart n start := by
+    cases start with
+    | none => simp [pyOr, normBound, npStart]; omega
+    | some v =>
+      have := hs v rfl
+      unfold pyOr normBound npStart
+      simp only []
+      by_cases hv0 : v = 0
+      · subst hv0; simp; omega
+      · rw [if_neg hv0]
+        by_cases hneg : v < 0
+        · rw [if_pos hneg, if_pos hneg, neg_emod v n (by omega) hneg]; omega
+        · rw [if_neg hneg, if_neg hneg]; omega
+  have hE : normBound (pyOr stop n) n = npStop n stop ∧ npStop n stop ≤ n := by
+    cases stop with
+    | none =>
+      rw [show pyOr none (n : Int) = n from rfl]
+      unfold normBound npStop
+      simp only []
+      rw [if_neg (by omega)]; omega
+    | some v =>
+      have := he v rfl
+      by_cases hv0 : v = 0
+      · subst hv0
+        exfalso
+        simp only [npStop] at hlt
+        omega
+      · unfold pyOr normBound npStop
+        simp only []
+        rw [if_neg hv0]
+        by_cases hneg : v < 0
+        · rw [if_pos hneg, if_pos hneg, neg_emod v n (by omega) hneg]; omega
+        · rw [if_neg hneg, if_neg hneg]; omega
+  refine ⟨(npStart n start).toNat, (npStop n stop).toNat, by omega, by omega, by omega, by omega, ?_⟩
+  congr 1; omega
+
+
+/-! ### list branch -/
+
+/-- a list that is monotone in `f` splits into the run with the minimal key and the rest -/
+theorem filter_split {β : Type} (f : β → Nat) (c : Nat) (l : List β)
+    (hl : l.Pairwise (fun a b => f a ≤ f b)) (hc : ∀ x ∈ l, c ≤ f x) :
+    l.filter (fun x => f x == c) ++ l.filter (fun x => f x != c) = l := by
+  induction l with
+  | nil => rfl
+  | cons x xs ih =>
+    rw [List.pairwise_cons] at hl
+    have ih' := ih hl.2 (fun y hy => hc y (List.mem_cons_of_mem _ hy))
+    by_cases hx : f x = c
+    · simp only [List.filter_cons, hx, beq_self_eq_true, if_true, bne_self_eq_false,
+        Bool.false_eq_true, if_false, List.cons_append, ih']
+    · have h1 : xs.filter (fun y => f y == c) = [] := by
+        rw [List.filter_eq_nil_iff]
+        intro y hy
+        have := hl.1 y hy
+        have := hc x (List.mem_cons_self ..)
+        simp only [beq_iff_eq]; omega
+      have h2 : xs.filter (fun y => f y != c) = xs := by
+        rw [h1] at ih'; simpa using ih'
+      simp [hx, h1, h2]
+
+/-- grouping a key-monotone list by the increasing list of its keys and concatenating the groups
+gives the list back -/
+theorem group_flatten {β : Type} (f : β → Nat) (cs : List Nat) (hcs : cs.Pairwise (· < ·)) :
+    ∀ (l : List β), l.Pairwise (fun a b => f a ≤ f b) → (∀ x ∈ l, f x ∈ cs) →
+      (cs.map fun c => l.filter (fun x => f x == c)).flatten = l := by
+  induction cs with
+  | nil =>
+    intro l _ hmem
+    cases l with
+    | nil => rfl
+    | cons x xs => exact absurd (hmem x (List.mem_cons_self ..)) List.not_mem_nil
+  | cons c cs ih =>
+    intro l hl hmem
+    rw [List.pairwise_cons] at hcs
+    have hmin : ∀ x ∈ l, c ≤ f x := by
+      intro x hx
+      rcases List.mem_cons.1 (hmem x hx) with h | h
+      · omega
+      · exact Nat.le_of_lt (hcs.1 _ h)
+    have hrest := ih hcs.2 (l.filter (fun x => f x != c)) (hl.filter _) (by
+      intro x hx
+      rw [List.mem_filter] at hx
+      rcases List.mem_cons.1 (hmem x hx.1) with h | h
+      · simp [h] at hx
+      · exact h)
+    have hcongr : (cs.map fun c' => l.filter (fun x => f x == c')) =
+        cs.map fun c' => (l.filter (fun x => f x != c)).filter (fun x => f x == c') := by
+      apply List.map_congr_left
+      intro c' hc'
+      rw [List.filter_filter]
+      apply List.filter_congr
+      intro x _
+      have := hcs.1 c' hc'
+      by_cases h : f x = c' <;> simp [h]; omega
+    rw [List.map_cons, List.flatten_cons, hcongr, hrest]
+    exact filter_split f c l hl hmin
+
+
+theorem readList_eq {α : Type} (parts : List (List α)) (l : List Nat)
+    (hl : l.Pairwise (· < ·)) (hlt : ∀ x ∈ l, x < parts.flatten.length) (d : α) :
+    readList parts l = some (l.map fun x => (parts.flatten[x]?).getD d) := by
+  let cid : Nat → Nat := fun x => ssRight (bounds parts) x - 1
+  let G : Nat → α := fun x => (parts.flatten[x]?).getD d
+  obtain ⟨hsorted, hmem⟩ := C07.Lemmas.unique_spec (l.map fun x => Int.ofNat (cid x))
+  have hmem' : ∀ c, c ∈ Np.unique (l.map fun x => Int.ofNat (cid x)) ↔ ∃ x ∈ l, cid x = c := by
+    intro c
+    rw [hmem c]
+    show Int.ofNat c ∈ List.map (fun x => Int.ofNat (cid x)) l ↔ _
+    rw [List.mem_map]
+    constructor
+    · rintro ⟨x, hx, h⟩; exact ⟨x, hx, Int.ofNat.inj h⟩
+    · rintro ⟨x, hx, h⟩; exact ⟨x, hx, by rw [h]⟩
+  have hmono : l.Pairwise (fun a b => cid a ≤ cid b) := by
+    apply hl.imp
+    intro a b hab
+    have := ssRight_mono (bounds parts) (Nat.le_of_lt hab)
+    show ssRight (bounds parts) a - 1 ≤ ssRight (bounds parts) b - 1
+    omega
+  have hgroup := group_flatten cid _ hsorted l hmono (fun x hx => (hmem' _).2 ⟨x, hx, rfl⟩)
+  unfold readList
+  simp only []
+  rw [Np.Lemmas.mapM_option_eq_some _ (fun c => (l.filter (fun x => cid x == c)).map G)]
+  · rw [Option.map_some]
+    congr 1
+    have : (fun c => (l.filter (fun x => cid x == c)).map G) =
+        (List.map G) ∘ (fun c => l.filter (fun x => cid x == c)) := rfl
+    rw [this, ← List.map_map, ← List.map_flatten, hgroup]
+  · intro c hc
+    obtain ⟨x, hx, rfl⟩ := (hmem' c).1 hc
+    obtain ⟨hc, h1, h2⟩ := chunk_spec parts x (hlt x hx)
+    simp only [cid] at hc ⊢
+    rw [if_neg (by rw [bounds_length]; omega), bounds_getElem? parts _ (by omega),
+      bounds_getElem? parts _ (by omega), List.getElem?_eq_getElem hc]
+    simp only []
+    have hfilter : (l.filter fun y => decide (startOf parts (ssRight (bounds parts) x - 1) ≤ y) &&
+          decide (y < startOf parts (ssRight (bounds parts) x - 1 + 1))) =
+        l.filter (fun y => ssRight (bounds parts) y - 1 == ssRight (bounds parts) x - 1) := by
+      apply List.filter_congr
+      intro y hy
+      rw [Bool.eq_iff_iff]
+      simp only [Bool.and_eq_true, decide_eq_true_eq, beq_iff_eq]
+      constructor
+      · rintro ⟨ha, hb⟩
+        exact chunk_unique parts y _ hc ha hb
+      · intro h
+        obtain ⟨_, h1', h2'⟩ := chunk_spec parts y (hlt y hy)
+        have h : ssRight (bounds parts) y - 1 = ssRight (bounds parts) x - 1 := h
+        rw [h] at h1' h2'
+        exact ⟨h1', h2'⟩
+    rw [hfilter]
+    apply Np.Lemmas.mapM_option_eq_some
+    intro y hy
+    rw [List.mem_filter, beq_iff_eq] at hy
+    obtain ⟨_, h1', h2'⟩ := chunk_spec parts y (hlt y hy.1)
+    have h : ssRight (bounds parts) y - 1 = ssRight (bounds parts) x - 1 := hy.2
+    rw [h] at h1' h2'
+    rw [part_getElem? parts _ y hc h1' h2', List.getElem?_eq_getElem (hlt y hy.1)]
+    show _ = some ((parts.flatten[y]?).getD d)
+    rw [List.getElem?_eq_getElem (hlt y hy.1)]; rfl
+
+
+/-! ### main statements -/
+
+theorem nonempty_of_length_pos {α : Type} (A : List α) (h : 0 < A.length) : Nonempty α := by
+  cases A with
+  | nil => simp at h
+  | cons a _ => exact ⟨a⟩
+
+theorem npRows_list_eq {α : Type} (A : List α) (l : List Int)
+    (h : ∀ i ∈ l, 0 ≤ i ∧ i < A.length) (d : α) :
+    npRows A (.list l) = some ((l.map Int.toNat).map fun x => (A[x]?).getD d) := by
+  unfold npRows
+  simp only []
+  rw [List.map_map]
+  apply Np.Lemmas.mapM_option_eq_some
+  intro i hi
+  obtain ⟨h0, h1⟩ := h i hi
+  rw [if_pos ⟨by omega, h1⟩, if_neg (by omega)]
+  have : i.toNat < A.length := by omega
+  simp [List.getElem?_eq_getElem this]
+
+/-- the main equality; it needs neither `parts ≠ []` (implied by `InDom`) nor non-empty parts
+(`bounds` is then only weakly increasing, which is all the chunk lookup uses) -/
+theorem getRows_eq_concat' {α : Type} (parts : List (List α)) (it : Item)
+    (hd : InDom parts.flatten.length it) :
+    getRows parts it = npRows parts.flatten it := by
+  have hn : (bounds parts).getLast?.getD 0 = parts.flatten.length := by rw [nSamples_eq]; rfl
+  cases it with
+  | int i =>
+    obtain ⟨h1, h2⟩ := hd
+    unfold getRows npRows
+    simp only [hn]
+    have hn0 : ¬ ((parts.flatten.length : Nat) : Int) = 0 := by omega
+    rw [if_neg hn0, if_pos (And.intro h1 h2)]
+    by_cases hneg : i < 0
+    · simp only [if_pos hneg]
+      rw [neg_emod i _ h1 hneg, if_neg (by omega)]
+      exact readInt_eq parts _ (by omega)
+    · simp only [if_neg hneg]
+      exact readInt_eq parts _ (by omega)
+  | slice start stop =>
+    obtain ⟨hs, he, hne'⟩ := hd
+    obtain ⟨s, e, hse, hen, hS, hE, hidx⟩ := slice_norm _ start stop hs he hne'
+    unfold getRows npRows
+    simp only [hn, hS, hE, hidx]
+    rw [if_pos (by omega), if_neg (by omega), Int.toNat_natCast, Int.toNat_natCast,
+      if_neg (by have := ssRight_mono (bounds parts) (show s ≤ e - 1 by omega); omega),
+      readSlice_eq parts s e (by omega), take_range']
+  | list l =>
+    obtain ⟨hl0, hl1, hl2⟩ := hd
+    have hpos : 0 < parts.flatten.length := by
+      cases l with
+      | nil => exact absurd rfl hl0
+      | cons i _ => have := hl2 i (List.mem_cons_self ..); omega
+    obtain ⟨d⟩ := nonempty_of_length_pos _ hpos
+    rw [npRows_list_eq _ l hl2 d]
+    unfold getRows
+    simp only []
+    rw [if_neg (by simpa using hl0), if_neg (by
+      simp only [List.any_eq_true, decide_eq_true_eq, not_exists, not_and]
+      intro i hi; have := hl2 i hi; omega)]
+    apply readList_eq
+    · rw [List.pairwise_map]
+      apply hl1.imp_of_mem
+      intro a b ha hb hab
+      have := hl2 a ha; have := hl2 b hb; omega
+    · intro x hx
+      obtain ⟨i, hi, rfl⟩ := List.mem_map.1 hx
+      have := hl2 i hi; omega
+
+theorem npRows_some {α : Type} (A : List α) (it : Item) (hd : InDom A.length it) :
+    ∃ rows, npRows A it = some rows ∧ rows ≠ [] := by
+  cases it with
+  | int i =>
+    obtain ⟨h1, h2⟩ := hd
+    have hlt : (if i < 0 then i + (A.length : Int) else i).toNat < A.length := by
+      split <;> omega
+    refine ⟨[A[(if i < 0 then i + (A.length : Int) else i).toNat]], ?_, by simp⟩
+    unfold npRows
+    simp only []
+    rw [if_pos ⟨h1, h2⟩, List.getElem?_eq_getElem hlt]; rfl
+  | slice start stop =>
+    obtain ⟨hs, he, hne'⟩ := hd
+    obtain ⟨s, e, hse, hen, _, _, hidx⟩ := slice_norm _ start stop hs he hne'
+    refine ⟨_, rfl, ?_⟩
+    rw [hidx, take_range']
+    intro h
+    have := congrArg List.length h
+    simp only [List.length_take, List.length_drop, List.length_nil] at this
+    omega
+  | list l =>
+    obtain ⟨hl0, hl1, hl2⟩ := hd
+    have hpos : 0 < A.length := by
+      cases l with
+      | nil => exact absurd rfl hl0
+      | cons i _ => have := hl2 i (List.mem_cons_self ..); omega
+    obtain ⟨d⟩ := nonempty_of_length_pos _ hpos
+    refine ⟨_, npRows_list_eq A l hl2 d, ?_⟩
+    simpa using hl0
+
+set_option linter.unusedVariables false in
+theorem getRows_eq_concat {α : Type} (parts : List (List α)) (hp : parts ≠ [])
+    (hne : ∀ p ∈ parts, p ≠ []) (it : Item) (hd : InDom parts.flatten.length it) :
+    getRows parts it = npRows parts.flatten it :=
+  getRows_eq_concat' parts it hd
+
+set_option linter.unusedVariables false in
+theorem getItem_eq_concat {β : Type} (parts : List (List (List β))) (hp : parts ≠ [])
+    (hne : ∀ p ∈ parts, p ≠ []) (it : Item) (c : ColSel) (hd : InDom parts.flatten.length it) :
+    getItem parts it c = (npRows parts.flatten it).map fun rows => rows.map (selCols c) := by
+  unfold getItem
+  rw [getRows_eq_concat' parts it hd]
 
 end PhyVerif.C01.Lemmas
